@@ -35,12 +35,12 @@ K1 = ['k_mult_avx512', 'k_add_avx512', 'k_add_avx512_b_c', 'k_mult_avx512_72', '
 UNITS = []
 for n in ('spmv_avx512_4x12', 'spmv_avx512_4x12_8'):
     for lane in range(8):
-        UNITS.append(Unit('k_%s@lane%d' % (n, lane), 'l1_lane%d' % lane, 'k_' + n, replace=K1, functions=['Goldilocks::%s [lane %d] over the L1 contracts (%s)' % (n, lane, A)], timeout=900, object_bits=12))
+        UNITS.append(Unit('k_%s@lane%d' % (n, lane), 'l1_lane%d' % lane, 'k_' + n, replace=K1, functions=['Goldilocks::%s [lane %d] over the L1 contracts (%s)' % (n, lane, A)], timeout=900))
 for n, sp in (('mmult_avx512_4x12', 'spmv_avx512_4x12'), ('mmult_avx512_4x12_8', 'spmv_avx512_4x12_8')):
-    UNITS.append(Unit('k_' + n, 'l2', 'k_' + n, replace=K1 + ['k_' + sp], functions=['Goldilocks::%s over the contracts of %s and the adders (%s)' % (n, sp, A)], timeout=900, object_bits=12))
-UNITS.append(Unit('k_dot_avx512', 'l2', 'k_dot_avx512', replace=['k_spmv_avx512_4x12'], functions=['Goldilocks::dot_avx512 over the contract of spmv_avx512_4x12 (%s)' % A], timeout=600, object_bits=12))
+    UNITS.append(Unit('k_' + n, 'l2', 'k_' + n, replace=K1 + ['k_' + sp], functions=['Goldilocks::%s over the contracts of %s and the adders (%s)' % (n, sp, A)], timeout=900))
+UNITS.append(Unit('k_dot_avx512', 'l2', 'k_dot_avx512', replace=['k_spmv_avx512_4x12'], functions=['Goldilocks::dot_avx512 over the contract of spmv_avx512_4x12 (%s)' % A], timeout=600))
 for n, mm in (('mmult_avx512', 'mmult_avx512_4x12'), ('mmult_avx512_8', 'mmult_avx512_4x12_8')):
-    UNITS.append(Unit('k_' + n, 'l3', 'k_' + n, replace=['k_' + mm], functions=['Goldilocks::%s over the contract of %s (%s)' % (n, mm, A)], timeout=900, object_bits=12))
+    UNITS.append(Unit('k_' + n, 'l3', 'k_' + n, replace=['k_' + mm], functions=['Goldilocks::%s over the contract of %s (%s)' % (n, mm, A)], timeout=900))
 import re
 from vf.driver import import_units
 _g, _u = import_units('C11', lambda n: re.match(r'k_(mult_avx512|add_avx512|add_avx512_b_c|mult_avx512_72|reduce_avx512_96_64|mult_avx512_128|reduce_avx512_128_64|store_avx512)(@.*)?$', n))
